@@ -94,7 +94,14 @@ pub fn generate(g: &mut G, _index: u64) -> Scenario {
             ops.push(Op::Stop { h: PRIMARY })
         }
     };
-    match g.below(9) {
+    match g.below(10) {
+        9 => {
+            // a join future that is created but never polled takes nothing away
+            ops.push(Op::JoinStart { h: PRIMARY });
+            ops.push(Op::JoinDiscard);
+            stop(ops);
+            ops.push(Op::Join { h: PRIMARY });
+        }
         0 => {
             stop(ops);
             ops.push(Op::Join { h: PRIMARY });
@@ -206,7 +213,9 @@ pub fn check(v: &View) -> Vec<Violation> {
                     // a None before the actor's end is only legitimate if another join took the handle
                     if a.dead.is_none_or(|d| end < d) {
                         let other = joins.iter().any(|x| (x.client, x.idx) != (o.client, o.idx) && x.begin < end);
-                        let started_before = v.ops.iter().any(|x| matches!(x.inner, Op::JoinStart { .. }) && x.begin < end && !x.skipped());
+                        // (a kept join future may have taken the handle - unless it was never polled)
+                        let discarded = v.ops.iter().filter(|x| matches!(x.inner, Op::JoinDiscard) && matches!(x.res, Some(Res::Ok))).count();
+                        let started_before = v.ops.iter().filter(|x| matches!(x.inner, Op::JoinStart { .. }) && x.begin < end && !x.skipped()).count() > discarded;
                         if !other && !started_before {
                             out.push(violation(P, "none-before-termination", "", format!("actor {aidx}: {:?} returned None at seq {end} while the actor was still running and no other join existed", o.inner)));
                         }
